@@ -98,12 +98,14 @@ let parse_r line =
   | "fpoint" | "opoint" -> if c.t.(c.i) = "exn" then RDomErr else RPoint (read_pt c)
   | "oval" | "eval" -> if c.t.(c.i) = "exn" then RDomErr else (let n = nextz c in let d = pos_of_z (nextz c) in RValue { qnum = n; qden = d })
   | s -> raise (Syntax ("r kind " ^ s))
-type sobs = { kw : mstatus; last : q list; ok : int; ncs : int }
+type sobs = { kw : mstatus; last : q list; ok : int; ncs : int; risk : bool; lgd : int }
 let parse_s line =
   let c = cur_of line in
   (match next c with "s" -> () | s -> raise (Syntax ("s expected: " ^ s)));
   let kw = status_of (next c) in let last = read_pt c in
-  ignore (next c); let ok = nexti c in ignore (next c); let ncs = nexti c in { kw; last; ok; ncs }
+  ignore (next c); let ok = nexti c in ignore (next c); let ncs = nexti c in
+  let risk = if more c then (ignore (next c); nexti c = 1) else false in
+  let lgd = if more c then (ignore (next c); nexti c) else List.length last in { kw; last; ok; ncs; risk; lgd }
 type fobs = { fsol : sol; fval : q option; fpt : q list option; fok : bool; fsat : bool; fspt : q list option }
 let parse_f line =
   let c = cur_of line in
@@ -155,6 +157,7 @@ let judge_case (cid : string) (cmds : string list) (obs : (string * string * str
   let st : mstate option ref = ref None in
   let hist = ref [] in
   let shape = Buffer.create 32 in   (* history shape: one letter per command *)
+  let tainted = ref false in        (* pending constraints were incorporated from a state flagged `risk' *)
   List.iteri (fun idx (line, (lr, ls, lf)) ->
       incr stats_steps;
       let step_no = idx + 1 in
@@ -180,8 +183,11 @@ let judge_case (cid : string) (cmds : string list) (obs : (string * string * str
       let fresh_agrees = match rf with
         | Ans rr -> fo.fsol = ref_sol rr && (match rr, fo.fval with ROptimal (v, _), Some w -> qeq v w | ROptimal _, None -> false | _ -> true)
         | OutOfFuel -> false in
+      (match parsed with
+       | Cmd (Solve | IsSatisfiable | FeasiblePoint | OptimizingPoint | OptimalValue) when so.risk -> tainted := true
+       | _ -> ());
       let feats extra =
-        [ "pricing", pricing_name pr; "dim", string_of_int (int_of_nat data.pdim); "ints", string_of_int nints;
+        [ "tainted", string_of_bool !tainted; "pricing", pricing_name pr; "dim", string_of_int (int_of_nat data.pdim); "ints", string_of_int nints;
           "ncons", string_of_int (List.length data.pcons); "ref", ref_name rf; "relax", ref_name rlp;
           "fresh_agrees_with_ref", (match rf with OutOfFuel -> "na" | _ -> string_of_bool fresh_agrees);
           "keyword", status_name so.kw; "shape", Buffer.contents shape ] @ extra in
@@ -202,7 +208,15 @@ let judge_case (cid : string) (cmds : string list) (obs : (string * string * str
       (* exceptions are never expected on these well-formed histories *)
       (match r with RExn e -> check (); fail "exn" ["exception", e] | _ -> ());
       (* OK() *)
-      check (); if so.ok = 0 then fail "ok/false" [] else if so.ok = 2 then fail "ok/throws" [];
+      check ();
+      if so.ok <> 1 then begin
+        let ld = so.lgd in
+        let maxint = List.fold_left (fun m i -> max m (int_of_nat i)) (-1) data.pints in
+        let integral = List.for_all (fun i -> let i = int_of_nat i in i >= ld || integral_b (List.nth so.last i)) data.pints in
+        fail (if so.ok = 0 then "ok/false" else "ok/throws")
+          ["last_generator_integral_on_integer_variables", string_of_bool integral;
+           "integer_variable_beyond_last_generator", string_of_bool (maxint >= ld)]
+      end;
       (* (a) invariant of the observed internal state against the reference *)
       (match so.kw, rf with
        | PARTIALLY_SATISFIABLE, _ -> ()
@@ -320,7 +334,23 @@ let split_cases lines =
       else cur := l :: !cur) lines;
   List.rev !cases
 
+(* --data <casefile>: no observations; for every case print features of the data reached after its last command *)
+let data_mode file =
+  List.iter (fun (id, cmds) ->
+      let data = List.fold_left (fun d line -> match parse_cmd line with New p -> p | Cmd c -> apply_data d c) (init_data O) cmds in
+      let (rf, rlp) = reference data in
+      let d = int_of_nat data.pdim in
+      let unb_dir = ref false and undec = ref false in
+      for i = 0 to d - 1 do
+        List.iter (fun m ->
+            let p = { data with pints = []; pobj = { lcoefs = List.init d (fun j -> if j = i then z_of_int 1 else Z0); lcst = Z0 }; pmode = m } in
+            match fst (reference p) with Ans (RUnbounded _) -> unb_dir := true | OutOfFuel -> undec := true | _ -> ()) [Max; Min]
+      done;
+      Printf.printf "DATA %s ints=%d ref=%s relax=%s relaxation_region_bounded=%s\n" id (List.length data.pints) (ref_name rf) (ref_name rlp)
+        (if !unb_dir then "false" else if !undec then "na" else "true")) (split_cases (read_lines file))
+
 let () =
+  if Array.length Sys.argv > 2 && Sys.argv.(1) = "--data" then (data_mode Sys.argv.(2); exit 0);
   let cases = split_cases (read_lines Sys.argv.(1)) and obs = split_cases (read_lines Sys.argv.(2)) in
   let obs_tbl = Hashtbl.create 1024 in
   List.iter (fun (id, ls) -> Hashtbl.replace obs_tbl id ls) obs;
